@@ -184,6 +184,10 @@ func signature(m *model, o *op, x problem) string {
 		return "second-finisher-on-handle/" + signature(m, &first, x)
 	}
 	switch {
+	case o.doNothingWhere && x.Class == "error" && strings.Contains(x.Got, "syntax error"):
+		// UpdateAll without any column it may update is turned into DO NOTHING by gorm, which keeps the
+		// condition of the conditional upsert: ON CONFLICT (..) DO NOTHING WHERE ..., a syntax error
+		return "conditional-updateall-without-updatable-column-renders-do-nothing-where/error"
 	case m.blockedCol(x.Col) && (x.Class == "missing-write" || (x.Class == "wrong-value-written" && o.family == "upsert-doupdates" && !x.NewRow)):
 		// a column whose permission-less duplicate on the shorter path is declared BEFORE the
 		// embedded struct holding the writable field: its own class (in an upsert conflict row the
@@ -287,6 +291,9 @@ func run(c *core.Ctx) {
 	if m.zeroGrid {
 		c.Inc("model_key_composite_with_zero_parts")
 	}
+	for _, rl := range m.rels {
+		c.Inc("model_relation_" + rl.typ + "_tag_" + rl.perm)
+	}
 	nops := 12
 	for i := 0; i < nops; i++ {
 		kind := core.Pick(r, opKinds)
@@ -312,9 +319,23 @@ func run(c *core.Ctx) {
 				}
 			}
 			if o.assoc != nil {
-				seedChildren(m, o)
+				seedChildren(m, o.modelKeys[0])
+			} else if o.carriesKids() {
+				seedChildren(m, m.rows[0].key)
+			}
+			if o.ocWhere != nil {
+				o.ocKeys = keysWhere(m, o.ocWhere.rsql, o.ocWhere.rargs)
 			}
 			p := predict(m, o, ck)
+			// relation fields that carry records: the tables behind a relation the path may not write
+			// must come back unchanged
+			var rcs []relCheck
+			var kidsBefore map[string]string
+			if o.assoc == nil && o.carriesKids() {
+				rcs = relChecks(m, o, p)
+				freeForeignKeys(m, p, rcs)
+				kidsBefore = dumpKidTables()
+			}
 			H.Rec.Reset()
 			mark := H.Rec.Mark()
 			t0 := H.Clock.Ticks()
@@ -345,6 +366,33 @@ func run(c *core.Ctx) {
 				c.Inc("ops_second_finisher_on_handle")
 			}
 			probs := compare(m, p, before, after, t0, t1)
+			o.doNothingWhere = false
+			if o.kind == "upsert-all" && o.ocWhere != nil {
+				for _, e := range evs {
+					if e.IsStatement() && strings.Contains(e.Query, "DO NOTHING WHERE") {
+						o.doNothingWhere = true
+					}
+				}
+			}
+			nRelDenied, nRelCarried := 0, 0
+			var relShape []string
+			if rcs != nil {
+				kidsAfter := dumpKidTables()
+				for _, rc := range rcs {
+					nRelCarried++
+					if !rc.keep {
+						relShape = append(relShape, rc.rl.typ+" "+rc.rl.perm+" may-write")
+						continue
+					}
+					nRelDenied++
+					relShape = append(relShape, rc.rl.typ+" "+rc.rl.perm+" denied")
+					for _, t := range rc.rl.tables() {
+						if kidsBefore[t] != kidsAfter[t] {
+							probs = append(probs, problem{Row: "table " + t, Col: rc.rl.name, Class: "denied-relation-written", Got: kidsAfter[t], Want: kidsBefore[t] + " (unchanged)", Before: kidsBefore[t], Why: rc.why})
+						}
+					}
+				}
+			}
 			if res.Error != nil {
 				c.Inc("op_errors")
 				probs = append([]problem{{Class: "error", Got: res.Error.Error(), Want: "no error", Why: "a valid write returned an error"}}, probs...)
@@ -559,7 +607,42 @@ func run(c *core.Ctx) {
 			if len(p.target) == 0 && (o.family == "updates-struct" || o.family == "updates-map" || o.family == "update" || o.family == "updatecolumns") {
 				c.Inc("ops_empty_target")
 			}
-			nontrivial := nMust+nRefresh > 0 || nDenied+nNarrow+nAssocKept > 0 || (o.foc != nil && o.foc.wantFound && o.foc.assign == nil)
+			if nRelCarried > 0 {
+				c.Inc("ops_relation_fields_carry_records")
+				c.Inc("ops_relation_fields_carry_records_" + o.family)
+			}
+			if nRelDenied > 0 {
+				c.Inc("ops_relation_without_permission_checked")
+				c.Add("relations_without_permission_tables_unchanged", nRelDenied)
+				for _, rc := range rcs {
+					if rc.keep {
+						c.Inc("relation_denied_" + rc.rl.typ + "_" + rc.rl.perm)
+					}
+				}
+			}
+			if o.ocWhere != nil {
+				c.Inc("ops_" + o.family + "_conditional(OnConflict.Where)")
+				out := 0
+				for _, rc := range o.recs {
+					if k, ok := m.recKey(rc); ok && m.seedFor(normL(k)) != nil && !o.ocKeys[normL(k)] {
+						out++
+					}
+				}
+				if out > 0 {
+					c.Inc("ops_conditional_upsert_conflicting_row_outside_condition")
+					c.Add("rows_conflicting_outside_onconflict_where_checked", out)
+				}
+				if len(p.target) > 0 && out > 0 {
+					c.Inc("ops_conditional_upsert_condition_splits_conflicting_rows")
+				}
+			}
+			if o.ocTarget != nil {
+				c.Inc("ops_upsert_with_target_predicate(TargetWhere)")
+			}
+			if o.batch > 0 && strings.HasPrefix(o.kind, "upsert-") {
+				c.Inc("ops_upsert_through_CreateInBatches")
+			}
+			nontrivial := nMust+nRefresh > 0 || nDenied+nNarrow+nAssocKept > 0 || nRelDenied > 0 || (o.ocWhere != nil && len(p.target) < countConflicts(m, o)) || (o.foc != nil && o.foc.wantFound && o.foc.assign == nil)
 			if nontrivial {
 				c.Inc("ops_nontrivial")
 				var ph, fm []string
@@ -597,7 +680,8 @@ func run(c *core.Ctx) {
 				}
 				sort.Strings(du)
 				c.Shape(o.kind, o.tform, o.selMode, spell, ph, fm, nMust > 0, nRefresh > 0, nNarrow > 0, nZero > 0, len(p.target) > 1, m.pk.k.name, len(m.pks), dh, o.dropKey, o.reordered, listForm(o),
-					nEmb > 0, m.layoutName(), du, sliceForm(m, o), nEmpty > 0, o.returning, o.second, extraForm(m, o), o.noTable)
+					nEmb > 0, m.layoutName(), du, sliceForm(m, o), nEmpty > 0, o.returning, o.second, extraForm(m, o), o.noTable,
+					relShape, upsertForm(m, o, p))
 				if c.WantSample() && i == 5 {
 					c.Sample(map[string]interface{}{"model": m.decls(), "operation": desc, "target_rows": p.target, "sql": sqlOf(evs),
 						"checked": fmt.Sprintf("%d written cells, %d denied, %d narrowed, %d refreshed, %d rows outside the target unchanged", nMust, nDenied, nNarrow, nRefresh, len(m.rows)-len(p.target))})
@@ -605,6 +689,24 @@ func run(c *core.Ctx) {
 			}
 		}
 	}
+}
+
+func countConflicts(m *model, o *op) int {
+	n := 0
+	for _, rc := range o.recs {
+		if k, ok := m.recKey(rc); ok && m.seedFor(normL(k)) != nil {
+			n++
+		}
+	}
+	return n
+}
+
+// upsertForm: the OnConflict part of the case shape.
+func upsertForm(m *model, o *op, p *prediction) string {
+	if !strings.HasPrefix(o.kind, "upsert-") {
+		return ""
+	}
+	return fmt.Sprintf("where=%v split=%v target=%v cols=%v batch=%v", o.ocWhere != nil, o.ocWhere != nil && len(p.target) > 0 && len(p.target) < countConflicts(m, o), o.ocTarget != nil, o.ocCols, o.batch > 0)
 }
 
 // extraForm: the FirstOrCreate / association part of the case shape.
@@ -720,11 +822,12 @@ var Engine = &core.Engine{
 	Rule: "per case one model type built with reflect.StructOf (key int64 / uint / string / composite (int64,string); 3..7 fields of 20 Go types incl. pointers, sql.Null* and four kinds whose Go kind is Slice or Map (5 picks in 24): []byte, []string and map[string]int64 under serializer:json, and a named slice type that is its own driver.Valuer / sql.Scanner (type:text); custom column names, one random permission tag each out of <-:create, <-:update, <-:false, <-, ->, ->;<-:create, ->;<-:update, ->:false;<-:create, ->:false;<-, ->:false, -, -:migration, -:all; about 3 data fields in 10 also carry a default value in either tag order - default:(SQL expression) or default:null, which only the database evaluates (schema.FieldsWithDefaultDBValue), or a literal default:N / default:text gorm writes itself for a zero value - with the same DEFAULT in the table's DDL; 0..3 tracked time fields: UpdatedAt/CreatedAt by name, autoUpdateTime (time, seconds, milli, nano), autoCreateTime); in half of the models the non-key fields are spread over the top level and 1..2 EMBEDDED STRUCTS (embedded by tag or anonymously, by value or by pointer, with or without embeddedPrefix, one level of nesting) and 0..2 columns get a DUPLICATE field of the same Go name on a path of another length: " +
 		"a field without any permission (<-:false;->:false in either tag order) on the shorter path (top level) declared after - 1 in 3: before - the embedded struct whose writable field keeps serving the column, a field without any permission on the longer path, or a promoted field with a random permission tag shadowed by the outer field that owns the column (left zero); duplicates without permission carry non-zero values 3 times in 4, which must never reach the column; " +
 		"the table is created with raw SQL and holds 3..6 rows of unique sentinels; half of the composite-key models seed keys whose parts may be zero ((0,'a'), (1,'')); 12 writes per case, each on a re-seeded table: " +
-		"Create(struct | slice | []*T | map | []map), CreateInBatches, upsert (DoUpdates AssignmentColumns / Assignments, UpdateAll, DoNothing; conflicting and new keys mixed), Save (existing key, new key, zero key, slice, under a Where), Updates(struct by value/pointer, value = model), Updates(map), Update, UpdateColumn, UpdateColumns(struct | map) x Select/Omit (none, names, '*', '*'+Omit, names+Omit, Omit('*'); each name spelled as field name, column name or - 1 column spelling in 6 - column name qualified with the written table 'tbl.col'; the list of names handed over as Select(a, b, c), Select([]string{..}), Select(a, []string{..}), Select([]string{..}, c), Select([]string{a}, []string{..}), Omit(a, b, c) or - 2 in 5 lists of two or more names - ONE comma-joined string Omit(\"a,b\" | \"a, b\" | \"a , b\") with every mix of spellings at every position) x values zero / non-zero / pointer-to-zero / nil / gorm.Expr / for the slice and map kinds an EMPTY BUT NON-NIL value ([]byte{}, []string{}, map[string]int64{}, StrList{}: not the zero value of its type, so Updates(struct), UpdateColumns(struct), Save and every insert must write it - an empty blob, \"[]\", \"{}\" - while nil is the zero value; 1 non-zero collection value in 3 in structs, the \"zero\" slot of map values and DoUpdates assignments) x targets Model(key), Where (8 forms, 1..2), Model(key)+Where, Model(slice | array, of T | *T, of keys)[+Where] whose elements may have a zero key PART (composite keys), repeat a key (1 in 6) or carry no key at all (1 in 5; one time in three as the last element), missing key, value = model [+Where]; creates whose records carry integer keys while the key column is omitted / left unselected (1 in 5: the database must assign the key); one operation in three runs its chain calls (Model, Where, Select, Omit, Clauses, Attrs, Assign) in a random order; one update in three carries Clauses(clause.Returning{}) or a Returning naming 1..3 columns (UPDATE ... RETURNING scanned back into the model value), one struct create / upsert / Save in five does; REUSED HANDLE: after one update in three (no new Session) a SECOND update finisher - any of Updates(struct | map), Update, UpdateColumn, UpdateColumns(struct | map) with its own values - is called on the same *gorm.DB handle, either on the variable holding the chain (tx := db.Table(..).Model(..).Where(..).Select(..).Clauses(..); tx.Update(..); tx.Updates(..)) or on the handle the first finisher returned (the chained spelling ....Updates(a).UpdateColumns(b)), and after one Create / Create(slice) / CreateInBatches in four a second one with fresh records; the table is re-seeded with raw SQL between the two, so each finisher is checked on its own against the same prediction rules: it must write exactly ITS keys / non-zero fields to the rows the shared chain addresses; a column an INSERT may not write must hold the column's DDL default (else NULL); " +
+		"Create(struct | slice | []*T | map | []map), CreateInBatches, upsert (DoUpdates AssignmentColumns / Assignments, UpdateAll with or without the key named as conflict target, DoNothing; conflicting and new keys mixed; through Create or - one upsert of 2+ records in four - CreateInBatches(.., 1..2); CONDITIONAL UPSERT: 2 in 5 of the DoUpdates / UpdateAll upserts with a conflicting key carry OnConflict.Where = clause.Where{Exprs: 1..2 comparisons (=, <>, >, <=, IN) of a key column or a plain int / string data column of the STORED row}, each spelled as raw clause.Expr (bare, table-qualified 'tbl.col', for a single key also 'excluded.key'), as typed clause.Eq / Neq / Gt / Lte / IN with a bare, table-qualified or clause.CurrentTable column, or - 1 in 6 - as clause.Not of the opposite comparison, aimed at a strict subset of the conflicting rows: a stored row whose key conflicts but which does not satisfy the condition must keep every cell, the conflicting rows that satisfy it change as in an unconditional upsert, new keys are inserted; 1 upsert in 5 with a named conflict target also carries OnConflict.TargetWhere with a predicate every row satisfies), Save (existing key, new key, zero key, slice, under a Where), Updates(struct by value/pointer, value = model), Updates(map), Update, UpdateColumn, UpdateColumns(struct | map) x Select/Omit (none, names, '*', '*'+Omit, names+Omit, Omit('*'); each name spelled as field name, column name or - 1 column spelling in 6 - column name qualified with the written table 'tbl.col'; the list of names handed over as Select(a, b, c), Select([]string{..}), Select(a, []string{..}), Select([]string{..}, c), Select([]string{a}, []string{..}), Omit(a, b, c) or - 2 in 5 lists of two or more names - ONE comma-joined string Omit(\"a,b\" | \"a, b\" | \"a , b\") with every mix of spellings at every position) x values zero / non-zero / pointer-to-zero / nil / gorm.Expr / for the slice and map kinds an EMPTY BUT NON-NIL value ([]byte{}, []string{}, map[string]int64{}, StrList{}: not the zero value of its type, so Updates(struct), UpdateColumns(struct), Save and every insert must write it - an empty blob, \"[]\", \"{}\" - while nil is the zero value; 1 non-zero collection value in 3 in structs, the \"zero\" slot of map values and DoUpdates assignments) x targets Model(key), Where (8 forms, 1..2), Model(key)+Where, Model(slice | array, of T | *T, of keys)[+Where] whose elements may have a zero key PART (composite keys), repeat a key (1 in 6) or carry no key at all (1 in 5; one time in three as the last element), missing key, value = model [+Where]; creates whose records carry integer keys while the key column is omitted / left unselected (1 in 5: the database must assign the key); one operation in three runs its chain calls (Model, Where, Select, Omit, Clauses, Attrs, Assign) in a random order; one update in three carries Clauses(clause.Returning{}) or a Returning naming 1..3 columns (UPDATE ... RETURNING scanned back into the model value), one struct create / upsert / Save in five does; REUSED HANDLE: after one update in three (no new Session) a SECOND update finisher - any of Updates(struct | map), Update, UpdateColumn, UpdateColumns(struct | map) with its own values - is called on the same *gorm.DB handle, either on the variable holding the chain (tx := db.Table(..).Model(..).Where(..).Select(..).Clauses(..); tx.Update(..); tx.Updates(..)) or on the handle the first finisher returned (the chained spelling ....Updates(a).UpdateColumns(b)), and after one Create / Create(slice) / CreateInBatches in four a second one with fresh records; the table is re-seeded with raw SQL between the two, so each finisher is checked on its own against the same prediction rules: it must write exactly ITS keys / non-zero fields to the rows the shared chain addresses; a column an INSERT may not write must hold the column's DDL default (else NULL); " +
 		"FIRSTORCREATE (4 kinds in 38): db[.Model(&T{})].Where(..)[.Select/Omit][.Attrs(a)][.Assign(b)].FirstOrCreate(&dest[, cond]) with a and b each a map (every value form) or a struct by value / pointer (1..3 non-zero fields, pointer-to-zero included), Model(&T{}) on the chain one time in two, the single condition handed to the finisher instead of to Where one time in four, dest zero, carrying a key, or (not-found path) carrying values of its own; FOUND path (conditions of the 8 Where forms, none at all, or dest's key): with Assign the values of b must reach - exactly as Updates(map of b's keys / b's non-zero fields) would: permission tags, Select/Omit, refresh of tracked update time - the FOUND row only (first by primary key among the rows matching the conditions; 2..5 rows match in half of the cases) and no other row matching the conditions; with Attrs only nothing may be written; NOT-FOUND path (a new key as map condition, as string condition, or a fresh value of a data column as map / struct condition, dest with the new key or a database-assigned one): the created row is dest overlaid with the equality conditions, Attrs, then Assign, and obeys the rules of Create (create permission, Select/Omit, defaults); " +
-		"ASSOCIATION MODE (7 kinds in 38, models with association fields): one model in three has 1..2 association fields to static types - has-many Pets []C10Pet | []*C10Pet, has-one Toy, belongs-to Company with its foreign-key field CompanyID (int64 | *int64 | sql.NullInt64 | uint; an ordinary data field for every other operation), many2many Tags - with foreignKey / references / joinForeignKey named in the tag for all four key kinds; db[.Table(t)].Model(&owner | &[]T{o1, o2} | &[]*T{o1, o2}).Association(name).Append / Replace / Clear / Delete(records as pointers or one slice; existing, new and database-assigned keys) where every in-memory owner has the key of a seeded row and data fields that DIFFER from the row (the row changed behind its back), and one relation field in two - the relation itself or another one - already carries loaded / never-saved records: of the owner's table only the foreign key of the belongs-to relation may change (Append / Replace: the key of the linked record; Clear: NULL; Delete: NULL where the row is linked to a named record), in the owners' rows only; every other cell keeps its content; " +
+		"ASSOCIATION MODE (7 kinds in 38, models with an association field that has every permission): one model in two has 1..2 association fields to static types - has-many Pets []C10Pet | []*C10Pet, has-one Toy, belongs-to Company with its foreign-key field CompanyID (int64 | *int64 | sql.NullInt64 | uint; an ordinary data field for every other operation), many2many Tags - with foreignKey / references / joinForeignKey named in the tag for all four key kinds; db[.Table(t)].Model(&owner | &[]T{o1, o2} | &[]*T{o1, o2}).Association(name).Append / Replace / Clear / Delete(records as pointers or one slice; existing, new and database-assigned keys) where every in-memory owner has the key of a seeded row and data fields that DIFFER from the row (the row changed behind its back), and one relation field in two - the relation itself or another one - already carries loaded / never-saved records: of the owner's table only the foreign key of the belongs-to relation may change (Append / Replace: the key of the linked record; Clear: NULL; Delete: NULL where the row is linked to a named record), in the owners' rows only; every other cell keeps its content; " +
+		"RELATION FIELDS WITH PERMISSION TAGS: one model in two has 1..2 association fields (see association mode), each with a random permission tag in front of or behind its key names - none (8 in 23), <-:create, <-:update, <-:false, ->, ->;<-:create, <-, -:migration, -, -:all, <-:false;->:false - and in every struct value of a write (each record of Create / CreateInBatches / upsert / Save, the value of Updates / UpdateColumns, the Model value - every element of a Model(slice) - of Updates / Update / UpdateColumn(s)) every relation field carries, one time in two, 1..2 associated records (has-one / belongs-to: 1) with a new key, a key the database assigns or the key of a stored, unlinked record: the tables behind a relation (c10_pets | c10_toys | c10_companies | c10_tags + join table, re-seeded before and read back with raw SQL after every such write) must come back UNCHANGED when the relation field has no permission for the path the value takes - create for Create / CreateInBatches / new keys of an upsert or Save(slice) / Save of a zero key, update for Updates / Update / UpdateColumn(s) and for Save of an existing key whose UPDATE certainly runs, create-or-update (only a relation that has neither is certainly not written) for records whose key conflicts in an upsert or Save(slice), for Save of a new non-zero key, Save under conditions and a Save whose UPDATE may be empty (Save falls back to its upsert); " +
 		"one chain in four does not start with db.Table(name) (the table is the one of the model's schema); " +
-		"distinct = (finisher, target form, Select/Omit mode and spelling, permission tags denied, value forms, which check classes occurred, key kind, kinds of default whose given value had to be kept out of an INSERT, key carried but omitted, chain calls reordered, call form of the Select list and of the Omit list incl. the separator of a comma-joined one, cells written through an embedded struct, embedding forms of the model, roles of the duplicate fields next to a checked cell, container and element forms of a Model(slice), an empty non-nil collection value had to be written, form of the RETURNING clause, first or second finisher on the handle, FirstOrCreate path / Model on the chain / forms of Attrs and Assign / inline condition, association type / pointer forms / owner container / records already carried, chain with or without Table); non-trivial = at least one cell had to be written or refreshed, or a given value had to be kept out by a permission tag / Select / Omit, or a differing in-memory value of an owner had to be kept out by association mode, or a found record had to be left alone for want of Assign",
+		"distinct = (finisher, target form, Select/Omit mode and spelling, permission tags denied, value forms, which check classes occurred, key kind, kinds of default whose given value had to be kept out of an INSERT, key carried but omitted, chain calls reordered, call form of the Select list and of the Omit list incl. the separator of a comma-joined one, cells written through an embedded struct, embedding forms of the model, roles of the duplicate fields next to a checked cell, container and element forms of a Model(slice), an empty non-nil collection value had to be written, form of the RETURNING clause, first or second finisher on the handle, FirstOrCreate path / Model on the chain / forms of Attrs and Assign / inline condition, association type / pointer forms / owner container / records already carried, chain with or without Table, type and tag of every relation field that carried records and whether the path may write it, OnConflict form: condition / condition splits the conflicting rows / target predicate / key named / through CreateInBatches); non-trivial = at least one cell had to be written or refreshed, or a given value had to be kept out by a permission tag / Select / Omit, or the records of a relation field without permission had to be kept out of the relation's tables, or a conflicting row outside the condition of a conditional upsert had to be left alone, or a differing in-memory value of an owner had to be kept out by association mode, or a found record had to be left alone for want of Assign",
 	Assumptions: []string{
 		"the table is created with raw SQL (the migrator is not under test); reflect.StructOf types have no name, so three chains in four start with db.Table(name) and the handle's NamingStrategy maps the empty type name to the table of the running case (stands for a TableName method; every case's type is made unique by a second tag key on its first field, gorm caches one schema per type); ignored fields (`-`, `-:all`) get a ghost column so that a write to them is visible",
 		"`->:false` without a `<-` tag: the statement does not fix its write permission, the column is not checked in addressed rows (rows outside the target are)",
@@ -752,7 +855,9 @@ var Engine = &core.Engine{
 		"RETURNING: named columns never include an unreadable (->:false) column - gorm fails to scan it back ('unsupported Scan, storing driver.Value type ... into type *struct') and the default transaction rolls the write back: the same read-back matter as the RETURNING of database-default fields above, outside this statement - and name all key columns or none (a part of a composite key scanned by position into the elements of a Model(slice) mixes the keys of different rows); map creates carry no Returning; CreateInBatches under Clauses(clause.Returning{}) (all columns) is generated since the panic it caused was repaired (const genBatchReturningAll)",
 		"second finisher on a handle: only where what the handle addresses after the first finisher is fixed - not when the value is the model itself (assigned / loaded by the first finisher), not under RETURNING with a key-less Model(&T{}) (RETURNING loads the first returned row's key into it), not under RETURNING * with a Model(array of *T) (unfilled elements are left nil and the next finisher dereferences them), and not under RETURNING with a Model(slice) when the first finisher addressed no row (the slice is emptied); a column-update finisher leaves the handle in skip-hooks mode, so only column-update finishers follow one (whether a later Updates on that handle is hook-running is not fixed by the statement); Select('*') lets a second struct value follow only where it can carry the key of the single addressed row; a second create follows only plain Create / CreateInBatches of structs; violations of the second finisher have the signature second-finisher-on-handle/<family>/<class>",
 		"FirstOrCreate: which record is 'first' is fixed by the primary key order only: cases where several matching rows share the smallest first key column (composite keys are ordered by their first column) or where the found key has a zero part are skipped (counter ops_firstorcreate_skipped_path_not_fixed), as are cases whose conditions select the other path than the generator aimed at; Model on the chain is the empty Model(&T{}) only (a key in Model is not a condition of the query but would be one of the update); Attrs / Assign never name collection kinds (a slice value of the Assign map is rendered as a value list), tracked update-time fields or, in struct form, unreadable (->:false) and ignored fields (a struct is read through its readable fields); a zero field of an Assign struct that Select names is not checked on the found path (Updates(struct) would write it, the found path hands over the non-zero fields as a map); on the not-found path maps carry plain values only (no gorm.Expr: they are set on dest with field.Set), string conditions are not taken over into dest, and conditions on data columns use plain int / string fields without default or tracked time; Select lists name all key columns (Select also narrows the query that loads the found record, which is then addressed by its key) and no ignored field; Select/Omit modes: none, names, '*', Omit(names)",
-		"association mode: the statement fixes no Select list for the owner, so the reading is: the call writes a link, and of the owner's table only the belongs-to foreign key may change; whether linking refreshes the owner's tracked update-time columns is not checked; the tables of the associated records and the join table are re-seeded before every call and NOT inspected (link sets are C12's subject); no Select/Omit/Where on an association chain, no FullSaveAssociations, no Unscoped, no polymorphic or self-referential relation; owners are rows with a complete key; a slice of owners takes one argument per owner; a record whose key the database assigns is only handed to a single owner (the expected foreign key is then max(id)+1 of the seeded c10_companies); db.Table(name) in front of an association chain only for belongs-to and for Append on has-many / many2many (with Table the statements Replace / Clear / Delete run against the ASSOCIATED table of has-one / has-many and against the join table of many2many are redirected to the named table - UPDATE `owners` SET `owner_id`=NULL WHERE `c10_pets`.`owner_id` IN (..), DELETE FROM `owners` WHERE `c10_owner_tags`.`owner_id` IN (..) - and fail with 'no such column': not fixed by the statement); relation fields are left zero in every other operation; violations have the signature association-<append|replace|clear|delete>/<class>, class association-owner-column-written for a cell that had to be left alone",
+		"association mode: the statement fixes no Select list for the owner, so the reading is: the call writes a link, and of the owner's table only the belongs-to foreign key may change; whether linking refreshes the owner's tracked update-time columns is not checked; the tables of the associated records and the join table are re-seeded before every call and NOT inspected (link sets are C12's subject); no Select/Omit/Where on an association chain, no FullSaveAssociations, no Unscoped, no polymorphic or self-referential relation; owners are rows with a complete key; a slice of owners takes one argument per owner; a record whose key the database assigns is only handed to a single owner (the expected foreign key is then max(id)+1 of the seeded c10_companies); db.Table(name) in front of an association chain only for belongs-to and for Append on has-many / many2many (with Table the statements Replace / Clear / Delete run against the ASSOCIATED table of has-one / has-many and against the join table of many2many are redirected to the named table - UPDATE `owners` SET `owner_id`=NULL WHERE `c10_pets`.`owner_id` IN (..), DELETE FROM `owners` WHERE `c10_owner_tags`.`owner_id` IN (..) - and fail with 'no such column': not fixed by the statement); in the other operations the relation fields carry records as described under relation fields; violations have the signature association-<append|replace|clear|delete>/<class>, class association-owner-column-written for a cell that had to be left alone",
+		"relation fields: the permission tag of a relation FIELD is read like that of any field - without create (update) permission, read-only or ignored, the create (update) of the owner writes nothing through it: no associated record saved, no stored one re-linked, no join row; what a relation WITH permission saves is not this property's subject: its tables are not inspected, and the owner's foreign-key cell of a belongs-to relation that may be written and carries a record is not predicted (gorm sets it to the record's key); a record whose key conflicts in an upsert / Save(slice) updates its row through the create callbacks, Save of a new non-zero key runs an UPDATE and then its fallback upsert, a Save whose UPDATE has no column to set falls back too: there only a relation with neither permission is checked; map creates and FirstOrCreate carry no associated records; ->:false alone is not used on relation fields; association mode is only run on relation fields with every permission (none, <-, -:migration: what association mode does with a relation it may not write is not fixed by the statement); violations have the class denied-relation-written (signature <family>/denied-relation-written)",
+		"conditional upsert: OnConflict.Where is a condition of the chain (it reaches the statement through Clauses): a stored row whose key conflicts changes only when it satisfies it (class conflict-row-outside-onconflict-where-changed otherwise); the condition compares columns of the stored row with constants (no excluded.<data column>: for a column the INSERT may not write its value is not fixed), columns hold no NULL; DoNothing never carries a condition (DO NOTHING WHERE is no SQL); OnConflict.TargetWhere is the predicate of the conflict TARGET (index inference), not a row condition: it is only generated with a predicate every row satisfies (key IS NOT NULL / key <> an unused value), so that it can neither add nor remove a row under any reading, and only together with a named conflict target; a conditional UpdateAll for which no column may be updated is turned into DO NOTHING by gorm with the condition left in place (ON CONFLICT (..) DO NOTHING WHERE ..: a syntax error, nothing is inserted): reported under its own signature conditional-updateall-without-updatable-column-renders-do-nothing-where/error",
 		"a permission-less duplicate on the shorter path is always declared AFTER the embedded struct that holds the writable field; declared before it, it is the first to claim the column and gorm keeps it (the writable field is ignored on every write path): which of two fields owns a column is not fixed by the statement, so that order is not generated",
 	},
 	Cases: func(tier string) int {
